@@ -7,7 +7,7 @@
    Composition of Proofs/ParseSpec.v (the parsers compute the spec's items) with
    Proofs/TrackerRefine.v (the tracker refines the counting machine). *)
 From Coq Require Import ZArith.
-From RsdnsModel Require Import Base GenConst GenCursor GenTypes GenTracker GenReader GenSpec Cursor Names Labels Header Tracker RData Reader.
+From RsdnsModel Require Import Base GenConst GenCursor GenTypes GenTracker GenReader GenSpec Cursor Names Labels Header Tracker RData Reader Iter.
 From RsdnsModel.Spec Require Import WireName LinearPass.
 From RsdnsModel.Proofs Require Import CursorSafe ListN Window RoundTrip SpecExec ParseSpec TrackerRefine ReaderTotal.
 From Coq Require Import ZifyBool ZifyN ZifyNat.
@@ -387,6 +387,210 @@ Section RR.
     destruct (counts_spec nq an ns ar P Hc1 Hc2 Hc3 Hc4 P_bounds _ _ _ Hi) as (Cq & C0 & C1 & C2 & Ca).
     unfold rd_questions_count, rd_records_count_in, rd_records_count. rewrite Hd. cbn [negb].
     rewrite Cq, C0, C1, C2, Ca. cbn [bind]. repeat split; reflexivity.
+  Qed.
+
+  (* ---------------------------------------------------------------- the Records iterator *)
+  (* the iterator API's records(): its own parser and loop (records.rs), the same tracker *)
+  (* the iterator never seeks and never asks for questions: of its tracker only the three record
+     counters matter *)
+  Definition secs_at (idx : N) : tri counts :=
+    mkTri (mkCounts an (rd nq an ns ar idx 0)) (mkCounts ns (rd nq an ns ar idx 1)) (mkCounts ar (rd nq an ns ar idx 2)).
+  Definition IState (it : records_it) (idx hw : N) : Prop :=
+    whole msg (ri_cur it) /\ pos (ri_cur it) = P idx /\ twf (ri_tr it) /\ secs (ri_tr it) = secs_at idx.
+
+  Lemma iter_tracker_step tr idx p p' : twf tr -> secs tr = secs_at idx -> nq <= idx -> idx - nq < an + ns + ar ->
+    exists tr1 tr', next_section tr p = (tr1, Some (section_of (lin nq an ns ar) (idx - nq))) /\
+      section_read tr1 (section_of (lin nq an ns ar) (idx - nq)) p' = Ok tr' /\ twf tr' /\ secs tr' = secs_at (idx + 1).
+  Proof.
+    intros Ht Hs Hge Hlt. set (s := section_of (lin nq an ns ar) (idx - nq)).
+    assert (Hs3 : s < 3) by (unfold s, section_of; repeat destruct (_ <? _); lia).
+    pose proof (next_section_spec tr p Ht) as Hn. destruct (next_section tr p) as [tr1 so] eqn:En. destruct Hn as (N1 & N2 & N3 & _).
+    assert (Hso : so = Some s).
+    { pose proof (next_section_first tr p s Hs3) as Hf. rewrite En in Hf. cbn [snd] in Hf. apply Hf.
+      - intros s' Hs'. rewrite Hs. unfold s, section_of, lin in *. cbn [l_an l_ns] in *. unfold secs_at, rd, sec_start, sec_count, lin. cbn [l_an l_ns l_ar].
+        destruct (idx - nq <? an) eqn:E0; [lia|]. destruct (idx - nq <? an + ns) eqn:E1;
+          (assert (s' = 0 \/ s' = 1) as [-> | ->] by lia); cbn [tget t0 t1 t2 read total]; lia.
+      - rewrite Hs. unfold s, section_of, lin. cbn [l_an l_ns]. unfold secs_at, rd, sec_start, sec_count, lin. cbn [l_an l_ns l_ar].
+        destruct (idx - nq <? an) eqn:E0; [cbn [tget t0 read total]; lia|]. destruct (idx - nq <? an + ns) eqn:E1; cbn [tget t1 t2 read total]; lia. }
+    subst so. exists tr1.
+    assert (Hlt' : read (tget (secs tr1) s) < total (tget (secs tr1) s)).
+    { rewrite N1, Hs. unfold s, section_of, lin. cbn [l_an l_ns]. unfold secs_at, rd, sec_start, sec_count, lin. cbn [l_an l_ns l_ar].
+      destruct (idx - nq <? an) eqn:E0; [cbn [tget t0 read total]; lia|]. destruct (idx - nq <? an + ns) eqn:E1; cbn [tget t1 t2 read total]; lia. }
+    destruct (section_read_ok tr1 s p' N3 Hlt') as (tr' & Es & Ht'). exists tr'. split; [reflexivity|]. split; [exact Es|]. split; [exact Ht'|].
+    destruct (section_read_secs _ _ _ _ Es) as [S1 _]. rewrite S1, N1, Hs.
+    unfold s, section_of, lin. cbn [l_an l_ns]. unfold secs_at, rd, sec_start, sec_count, lin. cbn [l_an l_ns l_ar].
+    destruct (idx - nq <? an) eqn:E0; [|destruct (idx - nq <? an + ns) eqn:E1]; cbn [tset tget t0 t1 t2 read total]; f_equal; f_equal; lia.
+  Qed.
+
+  Definition skip_it (x : aitem) : bool := iter_skip_unknown (class_defined (a_class x)) (type_defined (a_type x)).
+  (* the typed decode of the data of record x, by the decoder of its own TYPE *)
+  Definition decoded (x : aitem) : option rdata :=
+    match read_rdata msg (a_type x) (a_rdlen x) with
+    | Some m => match snd (m (c_with_pos msg (a_type_off x + 10))) with Ok d => Some d | _ => None end
+    | None => None
+    end.
+  Definition rr_of (k : N) (x : aitem) (d : rdata) : rr :=
+    mkRR (section_of (lin nq an ns ar) k) (name_text msg (a_start x)) (a_class x) (a_type x) (a_ttl x) d.
+
+  (* what records() yields over records k, k+1, ...: records of unknown type or class are passed
+     over silently; every other record appears with section, owner text, class, type, TTL and its
+     typed data; None if some such record has an owner over 255 octets or data that does not decode *)
+  Fixpoint iter_items (k : N) (its : list aitem) : option (list rr) :=
+    match its with
+    | [] => Some []
+    | x :: rest =>
+      if skip_it x then iter_items (k + 1) rest
+      else if a_fits255 x then
+        match decoded x, iter_items (k + 1) rest with
+        | Some d, Some l => Some (rr_of k x d :: l)
+        | _, _ => None
+        end
+      else None
+    end.
+
+  Lemma whole_is c : whole msg c -> c = c_with_pos msg (pos c).
+  Proof. destruct c as [l p o]. unfold whole, c_with_pos. cbn. intros [-> ->]. reflexivity. Qed.
+
+  Lemma next_section_end tr idx p : secs tr = secs_at idx -> nq + (an + ns + ar) <= idx -> snd (next_section tr p) = None.
+  Proof.
+    intros Hs Hend. unfold next_section, ns_try, ns_has_unread. rewrite Hs. unfold secs_at. cbn [tget t0 t1 t2 read total].
+    unfold rd, sec_start, sec_count, lin. cbn [l_an l_ns l_ar].
+    destruct (N.min (idx - nq - 0) an <? an) eqn:E0; [lia|]. destruct (N.min (idx - nq - an) ns <? ns) eqn:E1; [lia|].
+    destruct (N.min (idx - nq - (an + ns)) ar <? ar) eqn:E2; [lia|]. reflexivity.
+  Qed.
+
+  (* one record, passed over *)
+  Lemma iter_step_skip it idx hw x f : IState it idx hw -> nq <= idx -> getN rs (idx - nq) = Some x -> skip_it x = true ->
+    exists it', records_read_impl msg (S f) it = records_read_impl msg f it' /\ IState it' (idx + 1) (N.max hw (idx + 1)).
+  Proof.
+    intros (Hw & Hp & Ht & Hsec) Hge Hg Hsk. pose proof (getN_lt _ _ _ Hg) as Hlt0.
+    destruct (P_record (idx - nq) x Hg) as (P1 & P2 & P3 & P4). replace (nq + (idx - nq)) with idx in * by lia.
+    destruct (iter_tracker_step (ri_tr it) idx (P idx) (P (idx + 1)) Ht Hsec Hge ltac:(lia)) as (tr1 & tr' & En & Es & Ht' & Hsec').
+    pose proof (iter_header_is_record_at msg (ri_cur it) Hw) as Hh. rewrite Hp, P3 in Hh. destruct Hh as (Hh & _ & M1 & M2 & M3).
+    assert (Hdata : a_type_off x + 10 + a_rdlen x <= lenN msg) by (rewrite P4 in M3; lia).
+    cbn [records_read_impl]. rewrite Hp, En. rewrite <- Hp, Hh. unfold skip_it in Hsk. rewrite Hsk.
+    destruct Hw as [Hl Ho]. rewrite c_skip_fwd by (cbn [pos lim c_set_pos]; lia). cbn [pos c_set_pos].
+    replace (a_type_off x + 10 + a_rdlen x) with (P (idx + 1)) by (rewrite P2, M2; reflexivity). rewrite Es.
+    eexists. split; [reflexivity|]. split; [split; assumption|]. split; [reflexivity|]. split; assumption.
+  Qed.
+
+  (* one record, yielded *)
+  Lemma iter_step_item it idx hw x d f : IState it idx hw -> nq <= idx -> getN rs (idx - nq) = Some x ->
+    skip_it x = false -> a_fits255 x = true -> decoded x = Some d ->
+    exists it', records_read_impl msg (S f) it = (it', Ok (RItem (rr_of (idx - nq) x d))) /\ IState it' (idx + 1) (N.max hw (idx + 1)).
+  Proof.
+    intros (Hw & Hp & Ht & Hsec) Hge Hg Hsk Hfit Hdec. pose proof (getN_lt _ _ _ Hg) as Hlt0.
+    destruct (P_record (idx - nq) x Hg) as (P1 & P2 & P3 & P4). replace (nq + (idx - nq)) with idx in * by lia.
+    destruct (iter_tracker_step (ri_tr it) idx (P idx) (P (idx + 1)) Ht Hsec Hge ltac:(lia)) as (tr1 & tr' & En & Es & Ht' & Hsec').
+    pose proof (iter_header_is_record_at msg (ri_cur it) Hw) as Hh. rewrite Hp, P3 in Hh. destruct Hh as (Hh & Hna & M1 & M2 & M3).
+    cbn [records_read_impl]. rewrite Hp, En. rewrite <- Hp, Hh. unfold skip_it in Hsk. rewrite Hsk.
+    unfold decoded in Hdec. destruct (read_rdata msg (a_type x) (a_rdlen x)) as [m|] eqn:Er; [|discriminate].
+    (* the owner name, decoded from a clone of the cursor *)
+    pose proof Hw as [Hl Ho].
+    assert (Ecl : c_clone_with_pos (c_set_pos (ri_cur it) (a_type_off x + 10)) (pos (ri_cur it)) = c_with_pos msg (P idx)).
+    { unfold c_clone_with_pos, c_with_pos, c_set_pos. cbn [orig lim]. rewrite Ho, Hl, Hp. reflexivity. }
+    rewrite Ecl.
+    pose proof (read_is_name_at msg Inline (c_with_pos msg (P idx)) ltac:(split; reflexivity)) as Hn.
+    cbn [pos c_with_pos] in Hn. rewrite Hna, Hfit in Hn. destruct Hn as (ls & Esn & Hn). rewrite Hn.
+    (* the data *)
+    assert (Ec1 : c_set_pos (ri_cur it) (a_type_off x + 10) = c_with_pos msg (a_type_off x + 10)).
+    { unfold c_set_pos, c_with_pos. rewrite Hl, Ho. reflexivity. }
+    rewrite Ec1. destruct (m (c_with_pos msg (a_type_off x + 10))) as [c2 y] eqn:Em. cbn [snd] in Hdec.
+    destruct y as [d'| | | | |]; try discriminate. inversion Hdec; subst d'.
+    assert (Hwc : whole msg (c_with_pos msg (a_type_off x + 10))) by (split; reflexivity).
+    destruct (read_rdata_exact msg _ _ m _ _ _ Er (whole_cwf msg _ Hwc) Em) as (_ & X1 & X2 & X3 & _).
+    assert (Ec2 : c2 = c_with_pos msg (P (idx + 1))).
+    { destruct c2 as [l p o]. cbn [pos lim orig c_with_pos] in X1, X2, X3. subst l o. unfold c_with_pos. f_equal. rewrite P2, M2. lia. }
+    subst c2. cbn [pos c_with_pos]. rewrite Es.
+    eexists. split.
+    - unfold rr_of, name_text. rewrite P1 in Esn. rewrite Esn. reflexivity.
+    - split; [split; reflexivity|]. split; [reflexivity|]. split; assumption.
+  Qed.
+
+  (* no record left *)
+  Lemma iter_step_end it idx hw f : IState it idx hw -> nq + (an + ns + ar) <= idx ->
+    exists it', records_read_impl msg (S f) it = (it', Ok RNone).
+  Proof.
+    intros (Hw & Hp & Ht & Hsec) Hend. cbn [records_read_impl].
+    pose proof (next_section_end (ri_tr it) idx (pos (ri_cur it)) Hsec Hend) as E.
+    destruct (next_section (ri_tr it) (pos (ri_cur it))) as [tr1 so]. cbn [snd] in E. subst so. eauto.
+  Qed.
+
+  (* records k.. of the message, as a suffix of rs *)
+  Definition suffix_at (k : N) (rest : list aitem) : Prop := forall j, getN rest j = getN rs (k + j).
+  Lemma suffix_tail k x rest : suffix_at k (x :: rest) -> getN rs k = Some x /\ suffix_at (k + 1) rest.
+  Proof.
+    intro H. split; [pose proof (H 0) as H0; rewrite getN_cons_0 in H0; replace (k + 0) with k in H0 by lia; symmetry; exact H0|].
+    intro j. rewrite <- (getN_cons_S x rest j), (H (j + 1)). f_equal. lia.
+  Qed.
+
+  (* one call of next(): passes over records of unknown type/class, then yields the next record or the end *)
+  Lemma read_impl_run : forall rest k f it hw, IState it (nq + k) hw -> suffix_at k rest -> k + lenN rest = an + ns + ar ->
+    (length rest < f)%nat ->
+    forall l, iter_items k rest = Some l ->
+    match l with
+    | [] => exists it', records_read_impl msg f it = (it', Ok RNone)
+    | y :: l' => exists it' k' rest' hw', records_read_impl msg f it = (it', Ok (RItem y)) /\
+                   IState it' (nq + k') hw' /\ suffix_at k' rest' /\ k' + lenN rest' = an + ns + ar /\
+                   (length rest' < length rest)%nat /\ iter_items k' rest' = Some l'
+    end.
+  Proof.
+    induction rest as [|x rest IH]; intros k f it hw Hs Hsuf Hk Hf l Hit; (destruct f as [|f]; [cbn in Hf; lia|]); cbn [iter_items] in Hit.
+    - inversion Hit; subst. apply (iter_step_end it (nq + k) hw f Hs). unfold lenN in Hk. cbn in Hk. lia.
+    - destruct (suffix_tail _ _ _ Hsuf) as [Hg Hsuf'].
+      assert (Hk' : k + 1 + lenN rest = an + ns + ar) by (unfold lenN in *; cbn [length] in Hk; lia).
+      destruct (skip_it x) eqn:Esk.
+      + destruct (iter_step_skip it (nq + k) hw x f Hs ltac:(lia) ltac:(replace (nq + k - nq) with k by lia; exact Hg) Esk) as (it1 & E1 & S1).
+        rewrite E1. replace (nq + k + 1) with (nq + (k + 1)) in S1 by lia.
+        specialize (IH (k + 1) f it1 _ S1 Hsuf' Hk' ltac:(cbn in Hf; lia) l Hit).
+        destruct l as [|y l']; [exact IH|].
+        destruct IH as (it' & k' & rest' & hw' & A1 & A2 & A3 & A4 & A5 & A6). exists it', k', rest', hw'.
+        repeat (split; [assumption|]). split; [cbn; lia|assumption].
+      + destruct (a_fits255 x) eqn:Efit; [|discriminate]. destruct (decoded x) as [d|] eqn:Ed; [|discriminate].
+        destruct (iter_items (k + 1) rest) as [l0|] eqn:El0; [|discriminate]. inversion Hit; subst l.
+        destruct (iter_step_item it (nq + k) hw x d f Hs ltac:(lia) ltac:(replace (nq + k - nq) with k by lia; exact Hg) Esk Efit Ed) as (it1 & E1 & S1).
+        replace (nq + k - nq) with k in E1 by lia. replace (nq + k + 1) with (nq + (k + 1)) in S1 by lia.
+        exists it1, (k + 1), rest, (N.max hw (nq + k + 1)). replace (nq + (k + 1)) with (nq + k + 1) in S1 |- * by lia.
+        split; [exact E1|]. split; [exact S1|]. split; [exact Hsuf'|]. split; [exact Hk'|]. split; [cbn; lia|exact El0].
+  Qed.
+
+  (* records() drained *)
+  Lemma drain_spec : forall n rest k it hw acc l, IState it (nq + k) hw -> suffix_at k rest -> k + lenN rest = an + ns + ar ->
+    (length rest < n)%nat -> (length rest < iter_fuel msg)%nat -> iter_items k rest = Some l ->
+    records_drain msg n it acc = Ok (rev acc ++ l, None).
+  Proof.
+    induction n as [|n IH]; intros rest k it hw acc l Hs Hsuf Hk Hn Hf Hit; [lia|]. cbn [records_drain].
+    pose proof (read_impl_run rest k (iter_fuel msg) it hw Hs Hsuf Hk Hf l Hit) as Hrun.
+    destruct l as [|y l'].
+    - destruct Hrun as (it' & E). rewrite E. rewrite app_nil_r. reflexivity.
+    - destruct Hrun as (it' & k' & rest' & hw' & E & S' & Hsuf' & Hk' & Hshorter & Hit'). rewrite E.
+      rewrite (IH rest' k' it' hw' (y :: acc) l' S' Hsuf' Hk' ltac:(lia) ltac:(lia) Hit').
+      cbn [rev]. rewrite <- app_assoc. reflexivity.
+  Qed.
+
+  (* the records start where the questions end *)
+  Lemma P_nq : lenN qs = nq -> P nq = e1.
+  Proof.
+    intro Hfull. unfold P, items. rewrite getN_app2 by lia. replace (nq - lenN qs) with 0 by lia.
+    destruct (chain_get _ _ Hfr _ _ _ Hr) as (_ & _ & R3 & _). destruct (getN rs 0) as [r0|]; exact R3.
+  Qed.
+
+  (* MessageIterator::records() over a completely parsed message *)
+  Theorem iter_records_spec h l : lenN rs = an + ns + ar ->
+    h_qd h <= 65535 -> h_an h = an -> h_ns h = ns -> h_ar h = ar ->
+    iter_items 0 rs = Some l -> iter_records msg h (P nq) = Ok (l, None).
+  Proof.
+    intros Hcr E1 E2 E3 E4 Hit. unfold iter_records.
+    assert (Hs : IState (mkRecIt (c_with_pos msg (P nq)) (tr_new h) false) (nq + 0) 0).
+    { split; [split; reflexivity|]. split; [cbn [ri_cur pos c_with_pos]; f_equal; lia|]. cbn [ri_tr]. split.
+      - unfold twf, cw, tr_new. cbn. lia.
+      - unfold tr_new, secs_at, rd, sec_start, sec_count, lin. cbn [secs l_an l_ns l_ar]. rewrite E2, E3, E4. f_equal; f_equal; lia. }
+    pose proof rs_len_le as Hle.
+    rewrite (drain_spec (iter_fuel msg) rs 0 _ 0 [] l Hs); [reflexivity| | | | |exact Hit].
+    - intro j. reflexivity.
+    - lia.
+    - unfold iter_fuel, lenN in *. lia.
+    - unfold iter_fuel, lenN in *. lia.
   Qed.
 
   (* ---------------------------------------------------------------- seek by skipping *)
@@ -947,6 +1151,15 @@ Section W.
   Proof. destruct Hp as (A1 & A2 & A3 & A4 & A5 & A6 & A7 & A8 & A9 & A10 & A11). eapply (rs_len_le msg A1 A2 nq an ns ar); eassumption. Qed.
   Theorem P_0_any : P qs rs e2 0 = 12.
   Proof. use P_0. Qed.
+
+  Theorem iter_records_any : forall h l, lenN rs = an + ns + ar ->
+    h_qd h <= 65535 -> h_an h = an -> h_ns h = ns -> h_ar h = ar ->
+    lenN qs = nq -> iter_items msg nq an ns ar 0 rs = Some l -> iter_records msg h e1 = Ok (l, None).
+  Proof.
+    intros h l H1 H2 H3 H4 H5 Hfull Hit. destruct Hp as (A1 & A2 & A3 & A4 & A5 & A6 & A7 & A8 & A9 & A10 & A11).
+    assert (HP : P qs rs e2 nq = e1) by (eapply (P_nq msg A1 A2 nq an ns ar qs rs e1 e2); eassumption). rewrite <- HP.
+    eapply (iter_records_spec msg A1 A2 nq an ns ar qs rs e1 e2 A4 A5 A6 A7 A8 A9 A10 A11); eassumption.
+  Qed.
 End W.
 
 Theorem linear_parsed msg l : linear_of msg = Some l ->
